@@ -347,6 +347,9 @@ def model_inputs(env, model):
 
 def run_path(fn, params, prefix, regions, tier, deadline, qtimeout_ms):
     """one symbolic execution of the harness along `prefix`; returns a record"""
+    from . import procstate
+
+    procstate.reset()
     ctx = Ctx(prefix, qtimeout_ms=qtimeout_ms)
     ctx.deadline = deadline
     env = Env("sym", ctx=ctx, regions=regions, tier=tier, params=params)
@@ -450,6 +453,9 @@ def explore(fn, params, prefix=(), regions=None, tier="quick", max_paths=10**9, 
 
 def run_native(fn, params, inputs, regions=None, tier="quick"):
     """native twin: concrete inputs, untouched modules.  Returns (failed labels, obs, excused)"""
+    from . import procstate
+
+    procstate.reset()
     env = Env("native", inputs=inputs, regions=regions, tier=tier, params=params)
     assert sym.CTX is None
     try:
